@@ -99,7 +99,7 @@ def check_one(case, ctx, deep, small_subsets=8):
                 if deep or len(subset) >= 2:
                     seq = list(subset) + [rnd.choice(subset) for _ in range(rnd.randint(0, 2))] if subset else []
                     rnd.shuffle(seq)
-                    query(ctx, context, case, plain, side, subset, rnd.choice(['list', 'iter']), seq)
+                    query(ctx, context, case, plain, side, subset, rnd.choice(['list', 'iter', 'iter', 'set', 'frozenset', 'dict', 'keys']), seq)
 
 
 def check_chars(case, ctx):
